@@ -29,6 +29,7 @@ import random
 import re
 import shutil
 import tempfile
+import threading
 import time
 
 import vlib
@@ -384,12 +385,15 @@ class Validator:
         self.accepted_events = 0
         self.tlc_runs = 0
         self.drift_seen = set()
+        self.lock = threading.Lock()
 
     def _tlc(self, lines, cfg):
-        self.n += 1
-        self.tlc_runs += 1
+        with self.lock:  # called from several threads: the run number names the TLC work directory
+            self.n += 1
+            self.tlc_runs += 1
+            n = self.n
         return self.ctx.tlc("RaftStoreTrace", cfg=cfg, workers=1, timeout=1200, heap="4g", jvm=jvm_tmp(self.ctx),
-                            files={"trace.ndjson": "\n".join(lines) + "\n"}, name="tv-%d" % self.n)
+                            files={"trace.ndjson": "\n".join(lines) + "\n"}, name="tv-%d" % n)
 
     def validate_chunk(self, progs):
         """progs: list of record-line lists.  Returns list of findings
@@ -404,8 +408,9 @@ class Validator:
             lines = [l for p in progs for l in p]
             r = self._tlc(lines, cfg)
             if r.ok and '"ACCEPTED"' in r.out:
-                self.accepted_traces += len(progs)
-                self.accepted_events += len(lines) - len(progs)
+                with self.lock:
+                    self.accepted_traces += len(progs)
+                    self.accepted_events += len(lines) - len(progs)
                 break
             if r.invariant_violated and re.match(r"^[PD]_", r.invariant_violated):
                 inv = r.invariant_violated
@@ -425,14 +430,16 @@ class Validator:
                 if inv.startswith("D_"):
                     findings.append(("drift", inv, hdr.get("prog"), pos - off - 1, rec, tail))
                     # programs before k were fully accepted at both levels
-                    self.accepted_traces += k
-                    self.accepted_events += sum(len(p) - 1 for p in progs[:k])
+                    with self.lock:
+                        self.accepted_traces += k
+                        self.accepted_events += sum(len(p) - 1 for p in progs[:k])
                     progs = progs[k:]
                     cfg = "RaftStoreTrace_prop.cfg"
                     continue
                 findings.append(("violation", inv, hdr.get("prog"), pos - off - 1, rec, tail))
-                self.accepted_traces += k
-                self.accepted_events += sum(len(p) - 1 for p in progs[:k])
+                with self.lock:
+                    self.accepted_traces += k
+                    self.accepted_events += sum(len(p) - 1 for p in progs[:k])
                 progs = progs[k + 1:]
                 continue
             raise vlib.Inconclusive("trace validation failed for a reason that is not a property predicate "
